@@ -211,6 +211,27 @@ Fixpoint plan_closed (g : gschema) (p : plan) {struct p} : bool :=
   end.
 
 
+(** ** the non-federated object.  The world has one plain object type, "Leaf" ([ALeaf val tag]: fields val, tag):
+    it is registered without a key and without _federation by every service whose fields return it, so the
+    gateway can never hop below it. *)
+Definition is_leaf (o : string) : bool := String.eqb o "Leaf".
+
+(** [svc] serves every field of the plain object *)
+Definition serves_leaf (g : gschema) (svc : string) : bool :=
+  forallb (fun e => let '(ty, _, _, owners) := e in negb (is_leaf ty) || existsb (String.eqb svc) owners) (g_fields g).
+
+Definition plain_ok (g : gschema) : bool :=
+  (* the fields of the plain object are scalars and not subject to the ServiceSelector *)
+  forallb (fun e => let '(ty, f, rty, _) := e in
+     negb (is_leaf ty) ||
+     (match rty with RScalar => true | _ => false end &&
+      match selector_of g ty f with None => true | Some _ => false end)) (g_fields g) &&
+  (* whoever serves a field that returns the plain object serves all of its fields (it registered the object) *)
+  forallb (fun e => let '(_, _, rty, owners) := e in
+     match rty with RObj o => negb (is_leaf o) || forallb (serves_leaf g) owners | _ => true end) (g_fields g) &&
+  (* it is not a member of a union *)
+  forallb (fun e => negb (existsb is_leaf (snd e))) (g_unions g).
+
 (** ** the hypotheses as one decidable condition on the federation (evaluated by the harness on every
     generated federation) *)
 Definition not_fed (n : node) : bool :=
@@ -220,14 +241,15 @@ Definition services_of (g : gschema) : list string :=
   dedupe (List.concat (map (fun e => let '(_, _, _, o) := e in o) (g_fields g))).
 
 Definition fed_ok (g : gschema) : bool :=
-  (* a service that serves a field of a type has _federation on that type and on the objects the field returns *)
+  (* a service that serves a field of a type has _federation on that type and on the objects the field returns
+     -- except for the plain object, which has none ([plain_ok] says what holds for it instead) *)
   forallb (fun e => let '(ty, f, rty, owners) := e in
      forallb (fun svc =>
-        owns g svc ty federation_field &&
+        (is_leaf ty || owns g svc ty federation_field) &&
         ((String.eqb ty "Query" && String.eqb f federation_field) ||
          match rty with
          | RScalar => true
-         | RObj o => owns g svc o federation_field
+         | RObj o => is_leaf o || owns g svc o federation_field
          | RUnion u => match union_members g u with
                        | Some ms => forallb (fun m => owns g svc m federation_field) ms
                        | None => false
